@@ -68,7 +68,7 @@ CLAIMED["C10"] = dict(
     note="Assumed: bindnode schema strictness (unknown, missing or wrongly typed payload fields are rejected by AssignNode against the embedded .ipldsch) — a dependency behaviour contracts cannot decide here; "
          "the reflection-based slow path of literal.Any (anyAssemble) is abstracted; policy.FromIPLD is used through a trusted contract (its shape is C14).",
     design="DESIGN.md §3 C10")
-for pid in ["C07","C09"]:
+for pid in ["C07"]:
     NOT_APPLICABLE[pid] = "contracts for this property are not registered yet in this tree (work in progress; see DESIGN.md §6 staging)"
 
 STREAM_NOTE = ("Assumed (trusted, stubs/io.spec): the io.Reader / io.Writer protocol; delivered/written and the fault counters failed/wfailed are ghost history variables of the "
@@ -162,3 +162,16 @@ CLAIMED["C19"] = dict(
          "and that two draws from the random source differ — these are the cryptographic content of secretbox and of the random source; what is proved is that the code hands them exactly the right inputs "
          "(a fresh draw per encryption as nonce, the unmodified stored nonce on reading, the authentication result is honoured).",
     design="DESIGN.md §3 C19, §7")
+
+CLAIMED["C09"] = dict(
+    text="Proof of absence of panics and of termination for go-ucan's own code on every decoder path: for the 62 functions on the paths from untrusted data "
+         "(token / delegation / invocation decoders and unsealers, envelope.Inspect / FindTag / FromIPLD, tokenFromModel, OptionalTimestamp, ValidateIntegerBoundsIPLD, the container readers with the CAR framing "
+         "(ldRead, readBlock, readHeader, readCar and its block iterator, addToken), policy.FromIPLD / statementFromIPLD / statementsFromIPLD, matchStatement / Match / PartialMatch / isOrdered / glob.Match / parseGlob, "
+         "selector.Parse / tokenize / resolve / resolveSliceIndices / Select, did.Parse / DID.PubKey and the ECDSA / RSA key unmarshallers) every generated safety obligation is discharged for all inputs: "
+         "index and slice bounds, nil dereference and nil interface / function calls, failed type assertions, explicit panics (including the 'should never happen' sites, proved unreachable), nil-map writes, make with a negative or oversized length, "
+         "and the preconditions of panicking dependency calls (must.Int / must.String, x509.MarshalPKIXPublicKey on nil coordinates, binary.PutUvarint buffer size); every loop and every (mutual) recursion carries a decreasing measure bounded below. "
+         "The CAR section length is proved to be capped at 32 MiB before allocation.",
+    note="Assumed: the dependencies themselves do not panic, loop forever or allocate without bound (go-ipld-prime codecs and bindnode, go-cid, multibase, libp2p crypto, x509, secretbox — their internals are outside the verified text; "
+         "where a dependency is known to panic on some input the stub carries a `requires` that is discharged); range-over-func iterators terminate; the reflection-based slow path of literal.Any is abstracted. "
+         "Not decided (honest gap): the memory bound 'a constant plus a multiple of the input size' apart from the CAR section cap; stack depth of the recursive decoders (bounded by the dependency's own nesting limits, not by go-ucan).",
+    design="DESIGN.md §3 C09, §7")
